@@ -21,11 +21,11 @@
 package main
 
 import (
-	"sync/atomic"
 	"fmt"
 	"sort"
 	"strings"
 	"sync"
+	"sync/atomic"
 	"time"
 
 	"verif/mc/par"
